@@ -72,6 +72,7 @@ func profileFor(prop, tier string, rng *PRNG) *Profile {
 		boost("rollback", 3)
 		boost("aolAdv", 4)
 		boost("authz", 3)
+		p.PBootstrap, p.Seeded = 0.08, 0.6 // "the writer list changes only through transactions of the owner" - also across export/import
 	case "C03":
 		only("did", "didAdv", "replay", "rollback")
 		boost("rollback", 2)
@@ -856,7 +857,21 @@ func (g *Gen) famDidAdv() {
 	upd := func(p *ProofSpec, doc *DocSpec) {
 		g.tx(MsgSpec{T: "did.Update", F: map[string]string{"did": did, "from": from}, Doc: doc, Proof: p})
 	}
-	switch r.Intn(17) {
+	switch r.Intn(18) {
+	case 17: // rotation that leaves the old key in verificationMethod under the SAME id as the new dedicated authentication method
+		nk := (k + 2 + r.Intn(5)) % NumDidKeys
+		if nk == k {
+			nk = (k + 1) % NumDidKeys
+		}
+		doc := &DocSpec{Id: did,
+			VMs:       []VMSpec{{Id: mid, Type: "EcdsaSecp256k1VerificationKey2019", Controller: did, Key: k}},
+			Assertion: []RelSpec{{Ref: mid}},
+			Auth:      []RelSpec{{VM: &VMSpec{Id: mid, Type: "EcdsaSecp256k1VerificationKey2019", Controller: did, Key: nk}}}}
+		id := g.tx(MsgSpec{T: "did.Update", F: map[string]string{"did": did, "from": from}, Doc: doc, Proof: &ProofSpec{Key: k, MethodID: mid, Seq: "cur"}})
+		g.didTx = append(g.didTx, didRef{id, did})
+		// the rotated-out key (now only an assertion key) tries to act; then the real authentication key acts
+		g.tx(MsgSpec{T: "did.Deactivate", F: map[string]string{"did": did, "from": from}, Proof: &ProofSpec{Key: k, MethodID: mid, Seq: "cur"}})
+		g.tx(MsgSpec{T: "did.Update", F: map[string]string{"did": did, "from": from}, Doc: doc, Proof: &ProofSpec{Key: nk, MethodID: mid, Seq: "cur"}})
 	case 15: // C11 near-miss: the did field is a case variant of the document id (base58 is case-sensitive: a different DID)
 		odid := g.env.Dids[other]
 		doc := g.didDoc(odid, []int{other}, 0)
